@@ -172,6 +172,9 @@ func runC19(x *Exec) {
 				past = false
 			}
 			o := "ok"
+			if err != nil && past && (op.Op == "select" || op.Op == "count") {
+				o, out, err = "ok-or-deadline", "", nil
+			}
 			if err != nil {
 				o = "err"
 				if !past && !isConstraint(err) {
@@ -181,6 +184,11 @@ func runC19(x *Exec) {
 				if isConstraint(err) {
 					o = "constraint"
 				}
+			} else if past && (op.Op == "select" || op.Op == "count") {
+				// a read under an expired deadline fails exactly when it needs the store, and that depends on
+				// what the handle holds in memory (a table re-connected after another connection won the
+				// same-name CREATE holds nothing): both outcomes are legitimate (what such reads return is C14's subject)
+				o, out = "ok-or-deadline", ""
 			} else if past && (op.Op == "insert" || op.Op == "update" || op.Op == "delete") && p.Cache == 0 {
 				// with the deadline in the past every statement that needs the store must fail
 				o = "ok-under-past-deadline"
